@@ -1,5 +1,6 @@
 import Proofs.Dist
 import Proofs.DistInfo
+import Theorems.C03B
 import Generated.C03
 import Theorems.C03P0
 import Theorems.C03P1
@@ -155,7 +156,27 @@ theorem min_distance_large (c : InfoInst) (hc : c ∈ Generated.C03.infoInstance
     ∀ m, m ≠ 0 → m < 2 ^ c.k → c.advD ≤ weight c.n (encode c.G m) :=
   fun m h0 hm => DistInfo.info_bound c (info_instances_ok c hc) m h0 hm
 
+/-! ## BCH codes: the BCH bound
+
+For every BCH instance in polynomial coefficient order (`Generated.C03B.instances`, regenerated from `/repo` with the field
+modulus the encoder uses) the kernel checks `bchOk`: the modulus is primitive, every generator row is a multiple of the
+generator polynomial `g`, and `g(α^j) = 0` for `j = 1 … δ-1`.  `BCHBound.bch_min_distance` then gives `d ≥ δ` by the BCH bound
+(`BCHAbs.bch_bound`: a Lagrange-interpolation argument over the field GF(2)[X]/(P), which `Proofs/FieldInst.lean` builds on the
+model's own carry-less arithmetic) — no enumeration, any length. -/
+
+/-- every BCH-bound instance is a catalogue instance: same generator matrix, advertised distance = the design distance used -/
+theorem bch_instances_in_catalogue : ∀ c ∈ Generated.C03B.instances, ∃ d ∈ Generated.C03.instances,
+    d.name = c.name ∧ d.n = c.n ∧ d.k = c.k ∧ d.G = c.G ∧ d.advD = c.delta ∧ d.gpoly = c.gpoly := by
+  decide +kernel
+
+/-- **true minimum distance ≥ design distance** for every BCH instance (μ ≤ 6 in the catalogue; the theorem behind it has no
+size bound) -/
+theorem min_distance_bch (c : BchInst) (hc : c ∈ Generated.C03B.instances) :
+    ∀ m, m ≠ 0 → m < 2 ^ c.k → c.delta ≤ weight c.n (encode c.G m) :=
+  fun m h0 hm => BCHBound.bch_min_distance c (bch_ok c hc) m h0 hm
+
 /-! ## non-vacuity -/
+example : ∃ c ∈ Generated.C03B.instances, c.n = 63 ∧ c.k > 30 ∧ c.delta ≥ 11 := by decide +kernel
 example : ∃ c ∈ Generated.C03.infoInstances, c.k > 20 ∧ c.advD ≥ 3 := by decide +kernel
 example : ∃ d ∈ Generated.C03.instances, d.exact = true ∧ d.advD = 7 ∧ d.perfect = true := by
   decide +kernel
